@@ -166,6 +166,39 @@ def time_atom(cond):
     return d.scale(-1), '<='
 
 
+def time_atoms(cond):
+    """all canonical atoms a path condition contributes: a comparison (time_atom) or a branch on the Ordering returned
+    by `a.cmp(&b)` (Less = -1, Equal = 0, Greater = 1)"""
+    a1 = time_atom(cond)
+    if a1 is not None:
+        return [a1]
+    term, op, val, _site = cond
+    if not (term[0] == 't' and term[1] == 'discr' and term[2][0][0] == 't' and term[2][0][1] == 'ts_cmp'):
+        return []
+    a, b = lin_time(term[2][0][2][0]), lin_time(term[2][0][2][1])
+    if a is None or b is None:
+        return []
+
+    def sgn(x):
+        return x - (1 << (x.bit_length() + (8 - x.bit_length() % 8) % 8)) if x > 127 else x
+    if op == '==':
+        poss = {sgn(val)}
+    else:
+        poss = {-1, 0, 1} - {sgn(x) for x in val}
+    d = a - b
+    if poss == {-1}:
+        return [(d, '<')]
+    if poss == {1}:
+        return [(d.scale(-1), '<')]
+    if poss == {0}:
+        return [(d, '<='), (d.scale(-1), '<=')]
+    if poss == {-1, 0}:
+        return [(d, '<=')]
+    if poss == {0, 1}:
+        return [(d.scale(-1), '<=')]
+    return []
+
+
 NEG = {'lt': 'ge', 'le': 'gt', 'gt': 'le', 'ge': 'lt', 'eq': 'ne', 'ne': 'eq'}
 FLIP = {'lt': 'gt', 'le': 'ge', 'gt': 'lt', 'ge': 'le', 'eq': 'eq', 'ne': 'ne'}
 
@@ -183,6 +216,28 @@ def cmp_norm(v):
     if neg:
         op = NEG[op]
     return op, v[2][0], v[2][1]
+
+
+def cond_truth(op, val):
+    if op == '!=' and set(val) == {0}:
+        return True
+    if op == '==' and val in (0, 1):
+        return bool(val)
+    return None
+
+
+def known_equal(conds):
+    """pairs (a, b) a path's conditions establish as equal: `a == b` taken, `a != b` not taken, through Not(..)"""
+    out = []
+    for term, op, val, _ in conds:
+        n = cmp_norm(term)
+        t = cond_truth(op, val)
+        if n is None or t is None:
+            continue
+        cop, a, b = n
+        if (cop == 'eq' and t) or (cop == 'ne' and not t):
+            out.append((a, b))
+    return out
 
 
 def cmp_const_right(v):
